@@ -133,6 +133,11 @@ func (b ByteSize) FindLargestFittingUnit() rune {
 			continue
 		}
 
+		if int64(b)%unitSize != 0 {
+			// The value would be truncated when written in this unit
+			continue
+		}
+
 		largestUnitRune = unitRune
 		largestUnitSize = unitSize
 	}
